@@ -41,6 +41,9 @@ InputLabels(e) ==
     (*  connection's state, which the probe observes - such a connection can do nothing that needs an existing user)         *)
     (IF e.ev \notin {"tick", "clean", "restart"} /\ Ok(e) # Allowed(e)
         /\ ~(e.ev = "logout" /\ Authenticated(e.c) /\ ~Exists(sess[e.c]))
+        \* (the property says when a login may succeed ("only for ..."), not that it must: a connection still authenticated as a
+        \*  user that has been deleted is refused a new login by the server until it reconnects - accepted, never the converse)
+        /\ ~(e.ev \in {"login", "login_pat"} /\ sess[e.c] = Gone /\ ~Ok(e))
      THEN {<<"C10.outcome", e.ev, e.res, Allowed(e)>>} ELSE {})
     \cup (IF e.ev = "restart" /\ ~Ok(e) THEN {<<"C10.restart", e.res>>} ELSE {})
     \cup (IF e.res \in {"panic", "closed"} THEN {<<"X.panic", e.ev, e.res>>} ELSE {})
